@@ -61,25 +61,71 @@ pub fn child_main() -> i32 {
     0
 }
 
+/// Environment of the k-th child: deterministic output may not depend on any of it.
+pub fn child_env(k: usize, cmd: &mut Command) -> &'static str {
+    match k % 8 {
+        1 => {
+            cmd.env_clear();
+            "empty environment"
+        }
+        2 => {
+            cmd.env("TZ", "Pacific/Kiritimati").env("LANG", "tr_TR.UTF-8").env("LC_ALL", "tr_TR.UTF-8").env("LANGUAGE", "tr");
+            "TZ/LANG/LC_ALL set"
+        }
+        3 => {
+            cmd.current_dir("/");
+            "cwd=/"
+        }
+        4 => {
+            cmd.env("RUST_BACKTRACE", "full").env("RUST_LOG", "trace").env("RUST_MIN_STACK", "16777216").env("RUST_TEST_THREADS", "1");
+            "RUST_* variables set"
+        }
+        5 => {
+            // many and long variables move the initial stack and the first heap allocations
+            for i in 0..200 {
+                cmd.env(format!("PGVERIF_PAD_{i}"), "x".repeat(37 * (i % 11) + 1));
+            }
+            "200 padding variables"
+        }
+        6 => {
+            cmd.env("HOME", "/nonexistent").env("USER", "nobody").env("TMPDIR", "/nonexistent").env("PROGUARD_DEBUG", "1").env("DEBUG", "1").env("CI", "true");
+            "HOME/USER/TMPDIR/DEBUG/CI set"
+        }
+        7 => {
+            cmd.env("MALLOC_ARENA_MAX", "1").env("MALLOC_PERTURB_", "165").env("MALLOC_TOP_PAD_", "1048576");
+            "glibc malloc tunables (perturb byte 0xA5, one arena)"
+        }
+        _ => "inherited environment",
+    }
+}
+
+/// Run `n` child processes over the same mappings. Child k works under `child_env(k)` and sees the mappings rotated
+/// by k positions (so whatever state a process carries from one write to the next differs between children); the
+/// answers are rotated back before they are returned.
 pub fn run_children(mappings: &[Vec<u8>], n: usize) -> Result<Vec<Vec<String>>, String> {
     let exe = std::env::current_exe().map_err(|e| e.to_string())?;
-    let mut framed = Vec::new();
-    for m in mappings {
-        framed.extend_from_slice(&(m.len() as u32).to_le_bytes());
-        framed.extend_from_slice(m);
-    }
+    let len = mappings.len().max(1);
     let mut kids = Vec::new();
-    for _ in 0..n {
-        let mut child = Command::new(&exe).arg("c14-child").arg("x").stdin(Stdio::piped()).stdout(Stdio::piped()).spawn().map_err(|e| format!("cannot spawn child: {e}"))?;
+    for k in 0..n {
+        let rot = (k * len / n.max(1)) % len;
+        let mut framed = Vec::new();
+        for i in 0..mappings.len() {
+            let m = &mappings[(i + rot) % len];
+            framed.extend_from_slice(&(m.len() as u32).to_le_bytes());
+            framed.extend_from_slice(m);
+        }
+        let mut cmd = Command::new(&exe);
+        cmd.arg("c14-child").arg("x".repeat(1 + 97 * (k % 5)));
+        child_env(k, &mut cmd);
+        let mut child = cmd.stdin(Stdio::piped()).stdout(Stdio::piped()).spawn().map_err(|e| format!("cannot spawn child: {e}"))?;
         let mut stdin = child.stdin.take().unwrap();
-        let data = framed.clone();
         let feeder = std::thread::spawn(move || {
-            let _ = stdin.write_all(&data);
+            let _ = stdin.write_all(&framed);
         });
-        kids.push((child, feeder));
+        kids.push((child, feeder, rot));
     }
     let mut out = Vec::new();
-    for (mut child, feeder) in kids {
+    for (mut child, feeder, rot) in kids {
         let mut s = String::new();
         child.stdout.take().unwrap().read_to_string(&mut s).map_err(|e| e.to_string())?;
         let _ = feeder.join();
@@ -87,7 +133,16 @@ pub fn run_children(mappings: &[Vec<u8>], n: usize) -> Result<Vec<Vec<String>>, 
         if !status.success() {
             return Err(format!("child exited with {status}"));
         }
-        out.push(s.lines().map(|l| l.to_string()).collect());
+        let rotated: Vec<String> = s.lines().map(|l| l.to_string()).collect();
+        if rotated.len() != mappings.len() {
+            return Err(format!("child answered {} lines for {} mappings", rotated.len(), mappings.len()));
+        }
+        // line j of the child is mapping (j + rot) % len
+        let mut lines = vec![String::new(); rotated.len()];
+        for (j, l) in rotated.into_iter().enumerate() {
+            lines[(j + rot) % len] = l;
+        }
+        out.push(lines);
     }
     Ok(out)
 }
@@ -231,7 +286,7 @@ fn classify(case: &MapCase, st: &mut Stats) -> bool {
 
 pub fn run(ctx: &Ctx) -> Report {
     let mut rep = Report::new(ID, "exploration", ctx);
-    rep.rule = format!("Cases: grammar-generated mappings (up to 12 class blocks) and corpus files. Each mapping is written twice in the parent (two fresh writer invocations => differently seeded HashSet/HashMap instances), from 8 concurrently running threads, at 8 different buffer alignments, again after failed / truncated writes on the same thread, and by {CHILDREN} separately started child processes (fresh hash seeds, different allocation addresses) that return digests (two 64-bit hashes + length). Oracle: all digests identical; output length == length implied by its own header. evaluations = write invocations compared. Non-trivial = distinct mappings with >=2 classes, >=3 distinct strings and >=1 by-params group of >=2 entries (so hash-ordered emission would have something to permute).");
+    rep.rule = format!("Cases: grammar-generated mappings (up to 12 class blocks) and corpus files. Each mapping is written twice in the parent (two fresh writer invocations => differently seeded HashSet/HashMap instances), from 8 concurrently running threads, at 8 different buffer alignments, again after failed / truncated writes on the same thread, and by {CHILDREN} separately started child processes (fresh hash seeds, different allocation addresses; each child under a different environment — empty, TZ/LANG/LC_ALL, cwd=/, RUST_* variables, 200 padding variables, HOME/USER/TMPDIR/DEBUG/CI, glibc malloc perturbation — and with the mappings rotated so that the write history before a given mapping differs between children) that return digests (two 64-bit hashes + length). Oracle: all digests identical; output length == length implied by its own header. evaluations = write invocations compared. Non-trivial = distinct mappings with >=2 classes, >=3 distinct strings and >=1 by-params group of >=2 entries (so hash-ordered emission would have something to permute).");
     rep.assumptions = vec!["one platform (x86_64 Linux); endianness / pointer-width dependent ordering is out of reach".into()];
     let collected: Mutex<Vec<(Vec<u8>, String)>> = Mutex::new(Vec::new());
     rep.run_stage("tall", || tall_case(&cfg()), ctx.cases(40, 1_500), |case: &MapCase, st: &mut Stats| {
